@@ -9,6 +9,7 @@ from fractions import Fraction
 
 from . import tlc
 from .common import VERIF, Check, close
+from .cross import pack, unpack
 
 SPEC = VERIF / "spec" / "mc" / "MC_UniLp.tla"
 MC = SPEC.parent
@@ -117,7 +118,8 @@ def _work(job):
     rep = None
     if res:
         rep = {"kind": "uni_behaviour", "scenario": scn, "row0": row0, "events": [s[0] for s in sa], "float_ticks": float_ticks,
-               "mismatches": [f"{t} {p}/{c}: {x}" for t, p, c, x, _ in res]}
+               "mismatches": [f"{t} {p}/{c}: {x}" for t, p, c, x, _ in res],
+               "packed": pack({"states": states, "universe": u})}   # the TLC states (spec side of every step), pickled
     sample = {"row0": row0, "scenario": [e["op"] for e in scn], "events": [e[0]["op"] + (":" + str(e[0].get("next", "")) if e[0]["op"] == "endbar" else "") + "->" + e[1] for e in sa]}
     return res, rep, counts, len(sa), sample
 
@@ -157,8 +159,8 @@ def explore(chk: Check, owner: str, cross=False):
         paths = rnd.sample(paths, budget)
     jobs = [("path", p, i % 4 == 3) for i, p in enumerate(paths)]
     simcfg = "MC_UniLp_sim_fee.cfg" if owner == "C08" else "MC_UniLp_sim.cfg"
-    sres, behs = tlc.simulate(SPEC, MC / simcfg, chk.tmp, num=(100 if cross else 160) if quick else (1500 if cross else 3000), depth=12 if quick else 20, seed=chk.seed,
-                              workers=8, timeout=1500)
+    sres, behs = tlc.simulate(SPEC, MC / simcfg, chk.tmp, num=(48 if cross else 160) if quick else (1500 if cross else 3000), depth=12 if quick else 20, seed=chk.seed,
+                              workers=16, timeout=1500)
     chk.add_tlc(sres, "simulate " + simcfg)
     chk.spec_violation(sres, "simulate")
     jobs += [("beh", [s for _, s in b], i % 4 == 3) for i, b in enumerate(behs)]
@@ -192,4 +194,25 @@ def explore(chk: Check, owner: str, cross=False):
 
 
 def replay(chk: Check, path: str, owner: str) -> int:
-    raise NotImplementedError("uni replay: see uni_run.replay (to be implemented with a TLC path oracle)")
+    """Re-run one stored behaviour (the TLC states are carried in the replay file) against the working tree."""
+    import json
+    rep = json.load(open(path))["replay"]
+    if rep.get("kind") == "tlc":
+        print(rep.get("output_tail", ""))
+        return chk.finish("TLC output of a spec-level violation")
+    d = unpack(rep["packed"])
+    _G["universe"] = d["universe"]
+    _G.pop("pa", None), _G.pop("pb", None)
+    res_, rep2, counts, nsteps, sample = _work(("beh", d["states"], rep["float_ticks"]))
+    chk.traces += 1
+    chk.evaluations += nsteps
+    for c, n in counts.items():
+        chk.count(c, n)
+    chk.sample(sample)
+    for tag, prop, clause, text, at in res_:
+        only_b = tag == "B" and not any(t == "A" for t, *_ in res_)
+        p = "C09" if (only_b or prop == "C09") else prop
+        print(f"  mismatch [{tag}] {p}/{clause}: {text}")
+        if p == owner:
+            chk.violation(f"UniLpMarket|{clause}|{tag}", f"[orientation {tag}] {text}", rep2)
+    return chk.finish("replay of one recorded behaviour (both orientations)")
